@@ -308,6 +308,12 @@ def eq_sym(ctx, lexpr):
                                   kind == "String" and txt == b"k"))
             for lab, v in others:
                 cases.append(("%s == \"k\"" % lab, v, alist.Str(b"k"), False))
+        elif pbase == "char":
+            for cv in (0x61, 0x3BB):
+                for pv2 in (0x61, 0x3BB):
+                    cases.append(("Char(%#x) == %#x" % (cv, pv2), Adt("value::Value", vidx["Char"], [cv], "Char"), pv2, cv == pv2))
+            for lab, v in [o for o in others if o[0] != "Char"] + [stored[1][:2]]:
+                cases.append(("%s == char" % lab, v, 0x61, False))
         elif pbase in ("f32", "f64"):
             for lab, v in others + [("Bool", Adt("value::Value", vidx["Bool"], [1], "Bool"))]:
                 cases.append(("%s == float" % lab, v, Opq("float"), False))
